@@ -429,3 +429,32 @@ Theorem C19_fast_eval : forall (net : list rxn) (iso : list str) (rc : rcert) (c
   (certs_ok_f net iso rc ccs = true -> run19f net iso rc ccs = run19 net iso rc ccs /\ certs_ok net iso rc ccs = true).
 Proof. exact fast_eval. Qed.
 Print Assumptions C19_fast_eval.
+
+(** (26) the network the object describes after any call sequence is one of the networks handed to a call (the one of the last
+         successful compute_summary, by (17)); in particular, if the network is never edited — every call carries the same x —
+         the stored summary group is exactly the fresh analysis of x, and by (17) so are all derived fields. *)
+Theorem C19_api_origin : forall (o : opts) (cs : list call) (sn : snapshot),
+  (s_sum (run_calls o cs ast_init) = Some sn -> exists c, In c cs /\ sn = snap_of o (c_x c)) /\
+  (forall x, (forall c, In c cs -> c_x c = x) -> s_sum (run_calls o cs ast_init) = Some sn -> sn = snap_of o x).
+Proof. exact api_origin_spec. Qed.
+Print Assumptions C19_api_origin.
+
+(** (27) undirected input (nx.Graph / nx.MultiGraph; the conversion repaired in /repo a58b70a, modelled in model/C19_Nodes.v:
+         orient / merge_arc): a graph with the nodes and incidences of the export, every incidence listed once in EITHER
+         orientation ([reor]: same role, same coefficient, same two ends), is turned into exactly the directed export — no
+         incidence is doubled, merged or dropped when the sides are dicts (no two incidences with the same species, reaction
+         and role) — and therefore gives the complex list and complex graph of (1)/(1b). *)
+Theorem C19_undirected_refine : forall (ids idr : str -> N) (net : list rxn) (iso : list str),
+  (forall s s', In s (species_set net iso) -> In s' (species_set net iso) -> ids s = ids s' -> s = s') ->
+  (forall e e', In e net -> In e' net -> idr (rid e) = idr (rid e') -> rid e = rid e') ->
+  (forall s e, In s (species_set net iso) -> In e net -> ids s <> idr (rid e)) ->
+  NoDup (map (fun a => (a_species a, a_rxn a, a_role a)) (bip_arcs net)) ->
+  forall E : list rarc,
+  Forall2 (fun e x => ra_role e = ra_role x /\ ra_stoich e = ra_stoich x /\
+                      ((ra_u e = ra_u x /\ ra_v e = ra_v x) \/ (ra_u e = ra_v x /\ ra_v e = ra_u x)))
+          E (rg_arcs (raw_export ids idr net iso)) ->
+  net <> [] -> species_set net iso <> [] ->
+  as_bipartite_undirected (RG (rg_nodes (raw_export ids idr net iso)) E) = raw_export ids idr net iso /\
+  complex_graph_nodes (as_bipartite_undirected (RG (rg_nodes (raw_export ids idr net iso)) E)) = Some (complex_graph net iso).
+Proof. exact undirected_refine. Qed.
+Print Assumptions C19_undirected_refine.
